@@ -929,7 +929,7 @@ def preNorm (n : Node) : Node :=
     patternProperties := emptyKV n.patternProperties, dependentSchemas := emptyKV n.dependentSchemas,
     prefixItems := Go.normList n.prefixItems, allOf := Go.normList n.allOf,
     dependencySchemas := emptyKV n.dependencySchemas, dependencyStrings := depNil n.dependencyStrings,
-    vocabulary := Go.normKV n.vocabulary, dependentRequired := emptyKV n.dependentRequired,
+    vocabulary := Go.normVocab n.vocabulary, dependentRequired := emptyKV n.dependentRequired,
     examples := Go.normJL n.examples }
 
 /-- step (2): the seven maps other than "properties" in ascending key order -/
